@@ -23,6 +23,8 @@
   go/internal/c04.
 -/
 import ClairModel.Proofs.JoinAll
+import ClairModel.Proofs.JoinHist
+import ClairModel.Gen.JoinState
 
 -- every variable of a property statement is bound explicitly: a misspelt name is an error, not a new variable
 set_option autoImplicit false
@@ -579,6 +581,118 @@ theorem several_records_any_reports (m : MatcherT) (opt : Bool) (rs : List (Rec 
     rw [List.any_eq_true]; exact ⟨x, hxi, hv⟩
   simp only [h3, h4, h5, Bool.false_eq_true, if_false, Bool.not_true]
   split <;> rfl
+
+/-! ## histories: what the updater factories keep between runs
+
+  The update manager calls `UpdaterSet` (an enumeration of the mirror) and then
+  `Fetch`/`Parse` periodically, against mirrors that fail now and then.  The
+  Debian updater stamps an advisory only if the process-wide release table
+  knows its release; the table is written by the enumeration.  The theorems
+  are about ALL histories of enumerations (with any outcome per request) and
+  parses. -/
+
+def opLoad : Bytes := [76, 111, 97, 100]
+def opLoadOrStore : Bytes := [76, 111, 97, 100, 79, 114, 83, 116, 111, 114, 101]
+def onlyLoadOrStore (ops : List (Bytes × Bytes)) : Bool := ops.all fun p => p.2 == opLoad || p.2 == opLoadOrStore
+
+/-- Tie A: the process-wide release tables of debian, ubuntu, alpine and suse
+    are only ever read (`Load`) and extended first-writer-wins (`LoadOrStore`):
+    no `Store`, `Delete`, `Clear`, `Swap`, `Range`, and the variable is not
+    handed to anything else.  In debian the one writer is `mkDist`, the one
+    reader `getDist`. -/
+theorem shared_tables_only_grow :
+    JoinState.debian.tableOps = [([103, 101, 116, 68, 105, 115, 116], opLoad), ([109, 107, 68, 105, 115, 116], opLoadOrStore)] ∧
+    onlyLoadOrStore JoinState.ubuntu.tableOps = true ∧ onlyLoadOrStore JoinState.alpine.tableOps = true ∧
+    onlyLoadOrStore JoinState.suse.tableOps = true ∧
+    JoinState.ubuntu.tableOps ≠ [] ∧ JoinState.alpine.tableOps ≠ [] ∧ JoinState.suse.tableOps ≠ [] := by
+  decide +kernel
+
+/-- Tie A: the shape `histStep` models.  `findReleases` never returns from
+    inside its per-release loop (every failed request is logged and skipped),
+    records a release by one `mkDist` call, the last statement of the loop body,
+    and nowhere else; `Parse` looks a release up once and `continue`s when it
+    is unknown. -/
+theorem debian_enumeration_shape :
+    JoinState.debian.loopReturns = 0 ∧ JoinState.debian.loopMkDistCalls = 1 ∧
+    JoinState.debian.loopEndsWithMkDist = true ∧ JoinState.debian.otherMkDistCalls = 0 ∧
+    JoinState.debian.parseSkipsUnknown = true ∧ JoinState.debian.parseGetDistCalls = 1 := by
+  decide +kernel
+
+/-- What the table knows it knows for ever, with the same version: no
+    enumeration (whatever the listing and the Release requests do) and no parse
+    removes or changes an entry. -/
+theorem debian_table_monotone (evs : List HistEvent) (t : RelTable) (c : Bytes) (v : Int)
+    (h : t.get c = some v) : (Sm.run histStep t evs).get c = some v :=
+  histRun_mono evs t c v h
+
+/-- A release whose Release file was read once, in any enumeration of the
+    history (from any initial table), is stamped by a Parse that follows the
+    history — however many enumerations in which its Release request failed,
+    was skipped, or in which the listing itself failed came after. -/
+theorem debian_every_listed_release_stamped_partial (t0 : RelTable) (evs : List HistEvent) (rs : List Bytes) (c : Bytes)
+    (hread : readIn c evs) (hc : c ∈ rs) :
+    ∃ w st, (histStep (Sm.run histStep t0 evs) (.parse rs)).2 = .parsed st ∧ (c, debianUpdDist c w) ∈ st := by
+  obtain ⟨w, hw⟩ := histRun_known evs t0 c hread
+  exact ⟨w, _, rfl, mem_filterMap_stamp _ rs c w hc hw⟩
+
+/-- The full statement — every release the mirror LISTS is stamped — fails on
+    the code: when the one request for `dists/<c>/Release` fails, the
+    enumeration succeeds, and the Parse that follows drops every advisory of
+    `c` (finding `debian-release-fault-drops`). -/
+theorem debian_every_listed_release_stamped_counterexample (c : Bytes) :
+    (histStep (Sm.run histStep [] [.enumerate true [(c, .fault)]]) (.parse [c])).2 = .parsed [] := by
+  simp [Sm.run, histStep, RelTable.learn, stampOne, RelTable.get]
+
+/-- The Distribution stamped for a release never changes: once a Parse can
+    stamp `c` with version `w`, every Parse after any further history stamps
+    it with the same Distribution. -/
+theorem debian_stamp_stable (t : RelTable) (evs : List HistEvent) (rs : List Bytes) (c : Bytes) (w : Int)
+    (h : t.get c = some w) (hc : c ∈ rs) :
+    ∃ st, (histStep (Sm.run histStep t evs) (.parse rs)).2 = .parsed st ∧ (c, debianUpdDist c w) ∈ st :=
+  ⟨_, rfl, mem_filterMap_stamp _ rs c w hc (histRun_mono evs t c w h)⟩
+
+/-- End to end over a history: if the table knows `c` with version `w`, then
+    after any history an image whose os-release says code name `c`, version
+    `w` is given exactly the Distribution the Parse stamps on `c`'s advisories
+    (so `debian_all_releases_reported` applies: the verdict is the matcher's
+    `Vulnerable`). -/
+theorem debian_image_joins_after_history (t : RelTable) (evs : List HistEvent) (rs : List Bytes)
+    (m : KV) (c : Bytes) (w : Int) (h : t.get c = some w) (hc : c ∈ rs)
+    (hid : get m kID = [100, 101, 98, 105, 97, 110]) (hn : lookup m kVERSION_CODENAME = some c) (hne : c ≠ [])
+    (hv : get m kVERSION_ID = itoa w) (hr : ClairModel.Bytes.inInt32 w) :
+    ∃ d st, debianFromKV m = .dist d ∧
+      (histStep (Sm.run histStep t evs) (.parse rs)).2 = .parsed st ∧ (c, d) ∈ st := by
+  obtain ⟨st, h1, h2⟩ := debian_stamp_stable t evs rs c w h hc
+  exact ⟨_, st, debian_all_releases m c w hid hn hne hv hr, h1, h2⟩
+
+/-- Tie A: `alpine.Factory.UpdaterSet` assigns its state (`cur`, `etag`,
+    `stamp`) only after the walk over the release directories has finished. -/
+theorem alpine_state_written_after_walk :
+    JoinState.alpine.stateWrites = [[99, 117, 114], [101, 116, 97, 103], [115, 116, 97, 109, 112]] ∧
+    JoinState.alpine.stateWritesAfterWalk = true := by
+  decide +kernel
+
+/-- The Alpine factory: the set a successful `UpdaterSet` hands out is the
+    factory's current set, and the state (stamp and set) changes only by a
+    completed walk under a new stamp — a failed `last-update` request, a 304,
+    an unchanged stamp, or a walk that hit a request error leave the previous
+    enumeration in place. -/
+theorem alpine_factory_keeps_last_completed_walk (s : AlpState) (e : AlpEvent) :
+    (∀ ns, (alpStep s e).2 = .set ns → (alpStep s e).1.cur = ns) ∧
+    ((alpStep s e).1 ≠ s → ∃ st etag found, e = .stampIs st etag (some found) ∧ s.stamp ≠ some st ∧
+        (alpStep s e).1 = { stamp := some st, etag := etag, cur := found }) :=
+  ⟨fun ns h => alpStep_set_is_cur s e ns h, alpStep_cur_change s e⟩
+
+/-- A walk over a mirror that serves `v3.3/ … v3.<k>/` contiguously (and
+    nothing else) finds exactly these releases: instance for k = 5 with
+    `main.json` everywhere and `community.json` from 3.4 on. -/
+example : alpWalk (fun maj min => if maj == 3 && 3 ≤ min && min ≤ 5 then .ok else .notFound)
+    (fun rel repo => if repo == [109, 97, 105, 110] || (repo == [99, 111, 109, 109, 117, 110, 105, 116, 121] && rel != [118, 51, 46, 51] && rel != [101, 100, 103, 101]) then .ok else .notFound) 16
+    = some [alpUpdaterName [109, 97, 105, 110] [118, 51, 46, 51],
+            alpUpdaterName [109, 97, 105, 110] [118, 51, 46, 52], alpUpdaterName [99, 111, 109, 109, 117, 110, 105, 116, 121] [118, 51, 46, 52],
+            alpUpdaterName [109, 97, 105, 110] [118, 51, 46, 53], alpUpdaterName [99, 111, 109, 109, 117, 110, 105, 116, 121] [118, 51, 46, 53],
+            alpUpdaterName [109, 97, 105, 110] [101, 100, 103, 101]] := by
+  decide +kernel
 
 /-! ## structure of the sources the join relies on -/
 
